@@ -428,6 +428,10 @@ func (vc *VC) havoc(objs []types.Object, st *State, extra []string, pos token.Po
 			continue
 		}
 		nv := vc.freshConst(o.Name(), o.Type())
+		if ot.Sort == sHState {
+			// a variable that holds a hasher (hasher.go) still holds one after the loop
+			nv = vc.freshOfSort(o.Name(), sHState, nil)
+		}
 		// a pointer variable that is only mutated through (never reassigned)
 		// keeps pointing to the same object: nil-ness is preserved
 		if si := vc.ss.info[ot.Sort]; si != nil && si.Kind == "ptr" && vc.loopDirect != nil && !vc.loopDirect[o] {
